@@ -44,7 +44,7 @@ POSITIONAL = {
     'target-and-from-subquery-2': ('SELECT %s - a AS r, %s AS q FROM (SELECT a - %s AS a FROM #t)', 3),
     'group-having': ('SELECT a IS NULL AS k, sum(a + %s) AS s FROM #t GROUP BY 1 HAVING count(b) > %s', 2),
     # the same source text in two clauses, bound to different values
-    'same-text-target-order': ('SELECT a, a - %s FROM #t ORDER BY a - %s, b', 2),
+    'same-text-target-order': ('SELECT a, a < %s FROM #t ORDER BY a < %s, b', 2),
     'same-text-target-where': ('SELECT a < %s FROM #t WHERE a < %s', 2),
     'same-text-twice-in-targets': ('SELECT a + %s, a + %s FROM #t', 2),
 }
@@ -356,6 +356,33 @@ LEDGER_STATEMENTS = [
 ]
 
 
+def _in_fork(fn):
+    """Run fn() in a forked child and return its (pickled) result."""
+    import os
+    import pickle
+    rfd, wfd = os.pipe()
+    pid = os.fork()
+    if pid == 0:
+        try:
+            os.close(rfd)
+            try:
+                payload = pickle.dumps(('ok', fn()), protocol=4)
+            except BaseException as exc:    # noqa
+                payload = pickle.dumps(('error', repr(exc)), protocol=4)
+            with os.fdopen(wfd, 'wb') as f:
+                f.write(payload)
+        finally:
+            os._exit(0)
+    os.close(wfd)
+    with os.fdopen(rfd, 'rb') as f:
+        data = f.read()
+    os.waitpid(pid, 0)
+    status, value = pickle.loads(data)
+    if status != 'ok':
+        raise RuntimeError('forked reference run failed: ' + value)
+    return value
+
+
 @cond('C09.history.ledger', quick=180,
       bounds=f'the fixture ledger (Beancount-backed tables); every ordered pair out of {len(LEDGER_STATEMENTS)} statements (no FROM '
              'clause, FROM #table, FROM expression, OPEN / CLOSE / CLEAR periods, BALANCES, JOURNAL, parameters) executed one '
@@ -372,7 +399,8 @@ def history_ledger(i, j):
             text, params = LEDGER_STATEMENTS[k]
             cur = conn.execute(text, params)
             return [(c.name, c.datatype) for c in cur.description], cur.fetchall()
-        fresh = result(ledger.connect(), j)
+        # the reference result comes from a process that has executed nothing else (process-wide state counts as history)
+        fresh = _in_fork(lambda: result(ledger.connect(), j))
         conn = ledger.connect()
         result(conn, i)
         return result(conn, j) == fresh
